@@ -1,6 +1,13 @@
 """Single table of claimed checks; bin/mkmanifest renders MANIFEST.json from it."""
 
 CHECKS = {
+    "C01": dict(
+        level="translation_validation",
+        technique="TLA+ reference semantics MSLang (big-step, cells/frames/closures, checked 32-bit arithmetic, failure classes) evaluated by TLC on every program AST enumerated by the TLA+ generator GenCtl (BFS over nesting paths); the rendering of each program is executed by the real binary via `run` and `compile`+`execute`; TLC spec CheckLang decides agreement of output lines, exit status and failure class",
+        text="Per-program equivalence between the specification's evaluation and the compiled execution, for every control-flow nesting shape up to the bound (exhaustive to depth 2 in quick / 3 in thorough, seeded sample one level deeper): every mismatch in printed lines, order, exit status or failing statement is a verdict of the TLC judge.",
+        note="Trusts: MSLang.tla as the reading of the language (pinned by experiment, DESIGN appendix C), the AST pretty printer, the stderr classifier table. A panic counts as non-zero exit here (C17 judges panics).",
+        design="5/C01",
+    ),
     "C09": dict(
         level="model_checking",
         technique="TLA+ spec MSVM (bytecode machine, shape mode: ip, block frames with regions, operand-depth interval); TLC explores every dumped function over all branch outcomes (ExploreVM) checking JumpInRange/PopsOnlyBlockFrames/DonePopsInnermostIfElse/FrameWithinRegion/DepthBounded/OperandShape/ModuleExitsWithEmptyStack; TraceVM trace-validates per-instruction hook traces of the real interpreter against the same successor relation",
